@@ -6,12 +6,11 @@ Import ListNotations.
 Lemma option_eq_dec (a b : option nat) : {a = b} + {a <> b}.
 Proof. decide equality. apply Nat.eq_dec. Qed.
 
-Lemma inv_init wait script : forallb cmd_ok script = true -> inv (init wait script).
+Lemma inv_init wait script : inv (init wait script).
 Proof.
-  intro Hok. unfold init. apply next_cmd_inv; [|reflexivity].
+  unfold init. apply next_cmd_inv; [|reflexivity].
   split.
-  - constructor; simpl; auto; try tauto; try congruence; try (split; congruence); try constructor;
-      try exact Hok; try (intros; discriminate).
+  - constructor; simpl; auto; try tauto; try congruence; try (split; congruence); try constructor.
   - intros i p H. simpl in H. destruct i; discriminate.
 Qed.
 
@@ -25,11 +24,11 @@ Proof.
 Qed.
 
 Lemma reachable_inv s : reachable s -> inv s.
-Proof. intros (w & sc & sched & Hok & ->). apply exec_inv, inv_init, Hok. Qed.
+Proof. intros (w & sc & sched & ->). apply exec_inv, inv_init. Qed.
 
 Lemma reachable_step s t s' : reachable s -> step s t = Some s' -> reachable s'.
 Proof.
-  intros (w & sc & sched & Hok & ->) H. exists w, sc, (sched ++ [t]). split; [exact Hok|].
+  intros (w & sc & sched & ->) H. exists w, sc, (sched ++ [t]).
   revert H. generalize (init w sc). induction sched as [|u r IH]; intros s0 H; simpl in *.
   - rewrite H. reflexivity.
   - destruct (step s0 u); apply IH; exact H.
